@@ -8,6 +8,7 @@ import (
 
 	"github.com/platinummonkey/go-concurrency-limits/core"
 	"github.com/platinummonkey/go-concurrency-limits/strategy"
+	"github.com/platinummonkey/go-concurrency-limits/strategy/matchers"
 
 	"verif/mc"
 	"verif/vrt"
@@ -488,6 +489,7 @@ func runC03(c *Ctx) {
 			c.runBFS(c03Model(c03Cfg{lookup: false, fracs: []float64{0.3, 0.3}, overlap: true, limit: 3, dynamic: true}), mc.BFSOptions{MaxDepth: c.Pick(40, 60), MaxStates: 400000})
 		}
 	}
+	c03Matchers(c)
 	// Mode T: concurrent mixes on one strategy
 	for _, lookup := range []bool{true, false} {
 		for _, progs := range [][]string{{"a", "b", "R"}, {"aR", "bR"}, {"a", "z", "2"}, {"aR", "1", "b"}, {"a", "a"}, {"a", "a", "b"}, {"z", "z"}, {"b", "b", "a"}, {"a", "aR"}} {
@@ -673,4 +675,90 @@ func c03Concurrent(lookup bool, limit int, progs []string) *mc.Scenario {
 			}
 		},
 	}
+}
+
+// c03Matchers enumerates the bundled request-to-partition mappings (strategy/matchers) completely
+// and checks that a lookup strategy built without a lookup function charges by the documented
+// context key.
+func c03Matchers(c *Ctx) {
+	name := "C03/matchers"
+	params := "StringPredicateMatcher x case-insensitivity x context values; DefaultStringLookupFunc; default lookup function of the lookup strategy"
+	if c.replay != nil || (c.only != "" && !strings.Contains(name, c.only)) {
+		if c.replay == nil || c.replay.Scenario != name {
+			return
+		}
+	}
+	if c.replay == nil && (!c.Mine() || c.expired()) {
+		return
+	}
+	st := &mc.BFSStats{Model: name, Params: params, SigCounts: map[string]int{}, Exhaustive: true, Fixpoint: true, Depth: 1, MaxDepth: 1}
+	fail := func(sig, format string, a ...any) {
+		st.SigCounts[sig]++
+		if st.SigCounts[sig] == 1 {
+			st.Violations = append(st.Violations, &mc.Violation{Scenario: name, Params: params, Failures: []mc.Failure{{Sig: sig, Msg: fmt.Sprintf(format, a...)}}})
+		}
+	}
+	values := []any{nil, "a", "A", "b", "", 7}
+	states := map[string]bool{}
+	for _, match := range []string{"a", "A", "b", ""} {
+		for _, ci := range []bool{false, true} {
+			f := matchers.StringPredicateMatcher(match, ci)
+			for _, v := range values {
+				ctx := vctx.Background()
+				if v != nil {
+					ctx = vctx.WithValue(ctx, matchers.StringPredicateContextKey, v)
+				}
+				got := f(ctx)
+				sv, isStr := v.(string)
+				want := isStr && (sv == match || (ci && strings.EqualFold(sv, match)))
+				st.Transitions++
+				st.Nontrivial++
+				states[fmt.Sprint(match, ci, v, got)] = true
+				if got != want {
+					fail("matchers/string-predicate", "StringPredicateMatcher(%q, caseInsensitive=%v) on context value %#v = %v, want %v", match, ci, v, got, want)
+				}
+			}
+		}
+	}
+	for _, v := range values {
+		ctx := vctx.Background()
+		if v != nil {
+			ctx = vctx.WithValue(ctx, matchers.LookupPartitionContextKey, v)
+		}
+		got := matchers.DefaultStringLookupFunc(ctx)
+		want, _ := v.(string)
+		st.Transitions++
+		states[fmt.Sprint("lookup", v, got)] = true
+		if got != want {
+			fail("matchers/default-lookup", "DefaultStringLookupFunc on context value %#v = %q, want %q", v, got, want)
+		}
+	}
+	// a lookup strategy without a lookup function charges by LookupPartitionContextKey
+	parts := map[string]*strategy.LookupPartition{
+		"a": strategy.NewLookupPartitionWithMetricRegistry("a", 0.5, 1, core.EmptyMetricRegistryInstance),
+		"b": strategy.NewLookupPartitionWithMetricRegistry("b", 0.5, 1, core.EmptyMetricRegistryInstance),
+	}
+	s, err := strategy.NewLookupPartitionStrategyWithMetricRegistry(parts, nil, 2, core.EmptyMetricRegistryInstance)
+	if err != nil {
+		panic(err)
+	}
+	for _, k := range []string{"a", "b", "a"} {
+		s.TryAcquire(vctx.WithValue(vctx.Background(), matchers.LookupPartitionContextKey, k))
+		st.Transitions++
+	}
+	ba, _ := s.BinBusyCount("a")
+	bb, _ := s.BinBusyCount("b")
+	states[fmt.Sprint("default-lookup-strategy", ba, bb)] = true
+	if ba != 1 || bb != 1 || s.BusyCount() != 2 {
+		fail("matchers/default-lookup-strategy", "requests a,b,a at limit 2 (shares 1/1) with the default lookup function: bins a=%d b=%d total=%d, want 1/1/2", ba, bb, s.BusyCount())
+	}
+	st.States = len(states)
+	st.Samples = append(st.Samples, []mc.Step{{Lbl: `StringPredicateMatcher("a", true) on value "A"`}})
+	if c.replay != nil {
+		for _, v := range st.Violations {
+			fmt.Printf("  FAIL [%s] %s\n", v.Failures[0].Sig, v.Failures[0].Msg)
+		}
+		return
+	}
+	c.AddBFS(st)
 }
